@@ -69,7 +69,7 @@ sp("accessory_para_set_switch_time", type="MSG_ACCESSORY_PARA_SET", data=["anum"
    valid="anum <= 127")
 sp("accessory_para_set_macromap", type="MSG_ACCESSORY_PARA_SET", data=["anum", "BIDIB_ACCESSORY_PARA_MACROMAP", "@data"],
    valid="anum <= 127 && data_size >= 1 && data_size <= 16 && data[data_size - 1] == 0xFF",
-   ptr={"data": "data_size"}, sizes={"data_size": [0, 1, 2, 16, 17]})
+   ptr={"data": "data_size"}, sizes={"data_size": [0, 1, 2, 16, 17, 254, 255]})
 sp("accessory_para_get", valid=None)
 sp("boost_on", valid="unicast <= 1")
 sp("boost_off", valid="unicast <= 1")
@@ -80,17 +80,17 @@ sp("fw_update_op_done", type="MSG_FW_UPDATE_OP", prefix=["BIDIB_MSG_FW_UPDATE_OP
 # 'white' characters are not transmitted (header doc); the harness keeps them out of the payload (assume) so the
 # expected encoding is opcode + data; a separate shape allows them and only checks length/bounds
 sp("fw_update_op_data", type="MSG_FW_UPDATE_OP", data=["BIDIB_MSG_FW_UPDATE_OP_DATA", "@data"], valid="data_size <= 120",
-   ptr={"data": "data_size"}, sizes={"data_size": [0, 1, 8, 120, 121, 122]},
+   ptr={"data": "data_size"}, sizes={"data_size": [0, 1, 8, 120, 121, 122, 255]},
    assume="for (int i = 0; i < data_size; i++) VASSUME(data[i] != 0x20 && data[i] != 0x09 && data[i] != 0x0D && data[i] != 0x0A);")
 sp("bm_get_range", valid="start % 8 == 0 && end % 8 == 0")
 sp("bm_mirror_multiple", data=["mnum", "size", "@data"], valid="mnum % 8 == 0 && size >= 8 && size <= 128 && size % 8 == 0",
-   ptr={"data": "(size / 8)"}, sizes={"size": [0, 7, 8, 16, 64, 128, 129, 136]})
+   ptr={"data": "(size / 8)"}, sizes={"size": [0, 7, 8, 16, 64, 128, 129, 136, 248, 255]})
 sp("bm_mirror_occ", valid="1")     # header text 'divisible by 8' is a copy of the multiple-report doc; every detector number is mirrored (C19)
 sp("bm_mirror_free", valid="1")
 sp("bm_addr_get_range", valid=None)
 sp("msg_bm_mirror_position", type="MSG_BM_MIRROR_POSITION")
 sp("lc_configx_set", data=["port0", "port1", "@pairs"], valid="pairs_num >= 1 && pairs_num <= 8",
-   ptr={"pairs": "(2 * pairs_num)"}, sizes={"pairs_num": [0, 1, 2, 8, 9]})
+   ptr={"pairs": "(2 * pairs_num)"}, sizes={"pairs_num": [0, 1, 2, 8, 9, 127, 128, 255]})
 sp("lc_macro_handle", valid=None)
 sp("sys_identify", valid="identify_status <= 1")
 sp("sys_clock", valid="tcode0 <= 59 && tcode1 >= 128 && tcode1 <= 151 && tcode2 >= 64 && tcode2 <= 70 && tcode3 >= 192 && tcode3 <= 223")
@@ -113,11 +113,13 @@ sp("cs_rcplus_find_p1", type="MSG_CS_RCPLUS", prefix=["RC_FIND_P1"])
 sp("vendor_set", data=["vendor_data.name_length", "@vendor_data.name", "vendor_data.value_length", "@vendor_data.value"],
    valid="vendor_data.name_length + vendor_data.value_length <= 119",
    ptr={"vendor_data.name": "vendor_data.name_length", "vendor_data.value": "vendor_data.value_length"},
-   sizes={"vendor_data.name_length": [0, 1, 60, 119, 120], "vendor_data.value_length": [0, 1, 59, 60]})
+   sizes={"vendor_data.name_length": [0, 1, 60, 119, 120], "vendor_data.value_length": [0, 1, 59, 60]},
+   extra_sizes=[{"vendor_data.name_length": a, "vendor_data.value_length": b} for a, b in
+                ((0, 254), (0, 255), (200, 100), (128, 128), (255, 255), (254, 0), (127, 127), (126, 128))])
 sp("vendor_get", data=["name_length", "@name"], valid="name_length <= 120", ptr={"name": "name_length"},
-   sizes={"name_length": [0, 1, 2, 120, 121]})
+   sizes={"name_length": [0, 1, 2, 120, 121, 254, 255]})
 sp("string_set", data=["namespace", "string_id", "string_size", "@string"], valid="string_size <= 118",
-   ptr={"string": "string_size"}, sizes={"string_size": [0, 1, 2, 118, 119]})
+   ptr={"string": "string_size"}, sizes={"string_size": [0, 1, 2, 118, 119, 252, 253, 255]})
 SKIP = {"sys_reset": "whole startup dialogue, subject of C20"}
 
 
@@ -234,6 +236,7 @@ def queries():
         combos = [{}]
         for k in keys:
             combos = [dict(c, **{k: v}) for c in combos for v in szs[k]]
+        combos += spec.get("extra_sizes", [])
         for combo in combos:
             tag = "".join("-%s%d" % (k.split(".")[-1], v) for k, v in sorted(combo.items()))
             defs = {}
@@ -261,10 +264,11 @@ def queries():
                 d2 = dict(defs)
                 d2.update({"ADDR_TOP": "0x11" if depth > 0 else "0", "ADDR_SUB": "0x22" if depth > 1 else "0",
                            "ADDR_SUBSUB": "0x33" if depth > 2 else "0"})
-                quick = depth == 3 and (big <= 64 or (name == "fw_update_op_data" and big != 120))
-                if spec.get("node") == "root" or (spec.get("ptr") and big <= 16 and depth == 0):
+                quick = depth == 3 and (big <= 64 or big >= 248 or (name == "fw_update_op_data" and big != 120) or
+                                        combo in spec.get("extra_sizes", []))
+                if spec.get("node") == "root":
                     quick = True
-                qs.append(Q("send_%s%s-depth%d" % (name, tag, depth), "@wd/gen_%s.c" % name, SRCS, defs=d2, unwind=140,
+                qs.append(Q("send_%s%s-depth%d" % (name, tag, depth), "@wd/gen_%s.c" % name, SRCS, defs=d2, unwind=max(140, 2 * big + 12),
                             pre=pre, tier="quick" if quick else "thorough", env=None,
                             timeout=1700 if (name == "fw_update_op_data" and big >= 100) and not quick else None))
     return qs
